@@ -1046,15 +1046,15 @@ Proof. intro H. destruct (nth_error l i) eqn:E; [eauto|]. apply nth_error_None i
 Lemma jloop_call_ok s c (g : nat -> nat) :
   jinv s -> j_jrun s = true ->
   (forall i q, inst_ok true i q ->
-     aut_step PQual cf (Nat.eqb my i) (mkA true (b2n (q_st q) + b2n (q_ct q))) c
-     = (mkA true (g (b2n (q_st q) + b2n (q_ct q))), KOk)) ->
+     aut_step PQual cf (Nat.eqb my i) (mkA true (b2n (q_st q) + b2n (q_ct q))%nat) c
+     = (mkA true (g (b2n (q_st q) + b2n (q_ct q))%nat), KOk)) ->
   forall f, (forall i q, qual_step cf i (mkQS true q) c = qpack (f i true q)) ->
   exists qs' ev, jloop f 0 true (j_insts s) = (true, qs', ROk, ev) /\
      jinv (mkJ true true qs') /\
      jabs (mkJ true true qs') = mkA true (g (a_to (jabs s))).
 Proof.
-  intros (L & Hi & (st & ct & Hs) & J4) Hj HA f Hf. rewrite Hj in Hi.
-  pose proof (insts_nonempty s (conj L (conj Hi (conj (ex_intro _ st (ex_intro _ ct Hs)) J4)))) as Hne.
+  intros Hinv Hj HA f Hf. pose proof (insts_nonempty s Hinv) as Hne.
+  destruct Hinv as (L & Hi & (st & ct & Hs) & J4). rewrite Hj in Hi.
   destruct (jloop_ok f (inst_ok true)
               (fun q q' => (b2n (q_st q') + b2n (q_ct q'))%nat = g (b2n (q_st q) + b2n (q_ct q))%nat))
     with (qs := j_insts s) (i0 := 0%nat) as (qs' & ev & E & W' & HF).
@@ -1072,13 +1072,177 @@ Proof.
     assert (Hne' : qs' <> []).
     { intro E0. subst qs'. apply Forall2_length_eq in HF. cbn in HF. rewrite L in HF. unfold n in HF. lia. }
     split.
-    + split; [rewrite <- (Forall2_length_eq _ _ _ HF); exact L|].
+    + split; [cbn [j_insts]; rewrite <- (Forall2_length_eq _ _ _ HF); exact L|].
       split; [exact W'|]. split; [eauto|auto].
     + unfold jabs. cbn [j_insts j_jrun]. destruct (same_to_hd _ _ _ Hs' Hne') as [A B].
       assert (Hhd : In (hd q_init qs') qs') by (apply hd_in; exact Hne').
       apply In_nth_error in Hhd as [k Ek].
       destruct (Forall2_nth _ _ _ HF k _ Ek) as (q & Eq & Rq).
       destruct (Hs q (nth_error_In _ _ Eq)) as [E1 E2]. rewrite E1, E2 in Rq. rewrite Rq, Hst, Hct. reflexivity.
+Qed.
+
+Lemma joint_step_sim s c : jinv s ->
+  let '(s', res, _) := joint_step cf s c in
+  let '(A', k) := aut_step PJoint cf true (jabs s) c in
+  jinv s' /\ jabs s' = A' /\ class_of res = Some k.
+Proof.
+  intros Hinv. pose proof (insts_nonempty s Hinv) as Hne.
+  pose proof Hinv as (L & Hi & (st & ct & Hs) & J4).
+  destruct (same_to_hd _ _ _ Hs Hne) as [Hst Hct].
+  assert (HQ3 : ct = true -> st = true).
+  { destruct (j_insts s) as [|q0 qs] eqn:Ei; [congruence|].
+    destruct (Hi 0%nat q0 eq_refl) as [(_ & _ & _ & Q3) _]. cbn in Hst, Hct. subst st ct. exact Q3. }
+  destruct s as [run jrun insts]. cbn [j_insts j_jrun j_run] in *.
+  unfold jabs. cbn [j_insts j_jrun]. rewrite Hst, Hct.
+  destruct c as [sd| | | |o m|o m|j]; cbn [joint_step aut_step a_run a_to has_timeouts negb].
+  - (* Start *)
+    unfold joint_start. cbn [j_jrun j_insts]. destruct jrun; cbn.
+    { split; [exact Hinv|]. unfold jabs; cbn. rewrite Hst, Hct. auto. }
+    destruct (nth_error_lt insts (c_my cf)) as [q Eq]; [rewrite L; exact Hmy|].
+    rewrite Eq. destruct (Hi _ _ Eq) as [Wq _].
+    assert (Hqi : qinv cf (c_my cf) (mkQS false q)) by (split; [exact Wq|cbn; intros; discriminate]).
+    pose proof (qual_step_sim cf (c_my cf) Hmy (mkQS false q) (CStart sd) Hqi) as HS.
+    pose proof (qual_reuse_keeps_timeouts cf (c_my cf) (mkQS false q) sd) as HK.
+    cbn [qual_step qs_run qs_q] in HS, HK.
+    destruct (q_start cf (c_my cf) false q sd) as [[[run' q'] res] ev]. cbn [qpack] in HS, HK.
+    destruct (HK _ _ _ eq_refl) as (K1 & K2 & _). cbn in K1, K2.
+    unfold qabs in HS. cbn [qs_run qs_q aut_step a_run a_to] in HS. rewrite Nat.eqb_refl in HS. cbn [andb] in HS.
+    assert (Hsame' : same_to (set_nth insts (c_my cf) q') st ct).
+    { intros q0 H0. apply in_set_nth in H0 as [->|H0]; [|apply Hs; exact H0].
+      destruct (Hs q (nth_error_In _ _ Eq)). split; congruence. }
+    assert (Hne' : set_nth insts (c_my cf) q' <> []).
+    { intro E0. apply (f_equal (@length _)) in E0. rewrite set_nth_length in E0. cbn in E0. rewrite L in E0. unfold n in E0. lia. }
+    destruct (same_to_hd _ _ _ Hsame' Hne') as [Hst' Hct'].
+    destruct (seed_fails cf sd); destruct HS as ((W' & Ha') & Hab & Hc);
+      destruct res; try discriminate Hc; cbn.
+    + (* refused: not running *)
+      split; [|unfold jabs; cbn; rewrite Hst', Hct'; auto].
+      split; [cbn; rewrite set_nth_length; exact L|]. split; [|split; [eauto|intros; discriminate]].
+      intros i q0 E0. cbn in E0. apply nth_set_nth in E0 as [[-> ->]|[Hk E0]].
+      * split; [exact W'|intros; discriminate].
+      * destruct (Hi _ _ E0) as [W0 _]. split; [exact W0|intros; discriminate].
+    + split; [|unfold jabs; cbn; rewrite Hst', Hct'; auto].
+      split; [cbn; rewrite set_nth_length; exact L|]. split; [|split; [eauto|auto]].
+      intros i q0 E0. cbn in E0. apply nth_set_nth in E0 as [[-> ->]|[Hk E0]].
+      * split; [exact W'|]. intros _ _. apply Ha'; [reflexivity|]. inversion Hab. reflexivity.
+      * destruct (Hi _ _ E0) as [W0 _]. split; [exact W0|]. intros _ E1. unfold my in E1. congruence.
+  - (* NextTimeout *)
+    unfold joint_next_timeout. cbn [j_jrun j_insts j_run]. destruct jrun; cbn [negb].
+    2:{ split; [exact Hinv|]. unfold jabs; cbn. rewrite Hst, Hct. auto. }
+    rewrite (J4 eq_refl) in *.
+    destruct ct.
+    + (* both timeouts elapsed: refused at the first instance *)
+      rewrite (HQ3 eq_refl) in *. cbn.
+      destruct insts as [|q0 qs]; [congruence|]. cbn in Hct, Hst.
+      rewrite (jloop_refused _ 0%nat true q0 qs RStateErr).
+      * split; [exact Hinv|]. unfold jabs; cbn. rewrite Hst, Hct. auto.
+      * unfold q_next_timeout. cbn. rewrite Hct. reflexivity.
+      * discriminate.
+    + destruct (jloop_call_ok (mkJ true true insts) CNextTimeout S Hinv eq_refl) with
+        (f := fun i run q => q_next_timeout cf i run q) as (qs' & ev & E & Hinv' & Hab).
+      * intros i q [(_ & _ & _ & Q3) _]. cbn. destruct (q_st q), (q_ct q); cbn; try reflexivity.
+        specialize (Q3 eq_refl). discriminate.
+      * intros; reflexivity.
+      * cbn [j_insts] in E. rewrite E. replace (b2n st + b2n false)%nat with (b2n st + 0)%nat by reflexivity.
+        assert (Hlt : (2 <=? b2n st + 0)%nat = false) by (destruct st; reflexivity).
+        rewrite Hlt. split; [exact Hinv'|]. split; [|reflexivity].
+        rewrite Hab. unfold jabs. cbn. rewrite Hst, Hct. reflexivity.
+  - (* End *)
+    unfold joint_end. cbn [j_jrun j_insts j_run]. destruct jrun; cbn [negb].
+    2:{ split; [exact Hinv|]. unfold jabs; cbn. rewrite Hst, Hct. auto. }
+    destruct (st && ct) eqn:Eb.
+    + apply andb_prop in Eb as [-> ->]. cbn.
+      destruct (jend_loop_all insts 0%nat Hs) as (qs' & ev & E & HF). rewrite E.
+      assert (Hinv' : jinv (mkJ run false qs')).
+      { split; [cbn; rewrite <- (Forall2_length_eq _ _ _ HF); exact L|].
+        split; [|split; [|intros; discriminate]].
+        - intros i q' E'. cbn in E'. destruct (Forall2_nth _ _ _ HF i q' E') as (q & Eq & Rq).
+          destruct (Hi _ _ Eq) as [W0 _]. split; [exact (Rend_wf _ _ _ Rq W0)|intros; discriminate].
+        - exists true, true. intros q' Hin. cbn in Hin. apply In_nth_error in Hin as [k Ek].
+          destruct (Forall2_nth _ _ _ HF k q' Ek) as (q & Eq & Rq).
+          destruct (Rend_to _ _ Rq) as [A B]. destruct (Hs q (nth_error_In _ _ Eq)). split; congruence. }
+      assert (Habs' : jabs (mkJ run false qs') = mkA false 2).
+      { pose proof (insts_nonempty _ Hinv') as Hne'. cbn in Hne'.
+        destruct Hinv' as (_ & _ & (st' & ct' & Hs') & _). cbn in Hs'.
+        assert (Hin : In (hd q_init qs') qs') by (apply hd_in; exact Hne').
+        apply In_nth_error in Hin as [k Ek].
+        destruct (Forall2_nth _ _ _ HF k _ Ek) as (q & Eq & Rq).
+        destruct (Rend_to _ _ Rq) as [A B]. destruct (Hs q (nth_error_In _ _ Eq)) as [C D].
+        unfold jabs. cbn. rewrite A, B, C, D. reflexivity. }
+      destruct ((c_t cf <? length (filter q_disq qs'))%nat || (c_n cf - length (filter q_disq qs') <=? c_t cf)%nat) eqn:Efail.
+      * split; [exact Hinv'|]. split; [exact Habs'|reflexivity].
+      * apply orb_false_iff in Efail as [_ Ef]. apply Nat.leb_gt in Ef.
+        destruct (sum_up_ok qs') as (x & Y & ys & Esum).
+        { intros q' Hin. apply In_nth_error in Hin as [k Ek].
+          destruct Hinv' as (_ & Hi' & (st' & ct' & Hs') & _). cbn in Hi', Hs'.
+          destruct (Forall2_nth _ _ _ HF k q' Ek) as (q & Eq & Rq).
+          destruct (Rend_to _ _ Rq) as [A B]. destruct (Hs q (nth_error_In _ _ Eq)) as [C D].
+          split; [congruence|]. exists k. apply (Hi' k q' Ek). }
+        { intro E0. pose proof (filter_complement q_disq qs') as Hc. unfold qualified in E0. rewrite E0 in Hc.
+          cbn in Hc. rewrite <- (Forall2_length_eq _ _ _ HF), L in Hc. unfold n in Hc. lia. }
+        rewrite Esum. destruct (x =? 0); [|destruct (Y =? 0)]; (split; [exact Hinv'|]; split; [exact Habs'|reflexivity]).
+    + assert (Hlt : (b2n st + b2n ct <? 2)%nat = true) by (destruct st, ct; try discriminate; reflexivity).
+      rewrite Hlt. cbn.
+      destruct insts as [|q0 qs]; [congruence|]. cbn in Hct, Hst.
+      rewrite jend_loop_none by (rewrite Hst, Hct; exact Eb).
+      split; [exact Hinv|]. unfold jabs; cbn. rewrite Hst, Hct. auto.
+  - split; [exact Hinv|]. unfold jabs; cbn. rewrite Hst, Hct. auto.
+  - (* HandleBroadcastMsg *)
+    unfold joint_broadcast. cbn [j_jrun j_insts j_run]. destruct jrun; cbn [negb].
+    2:{ split; [exact Hinv|]. unfold jabs; cbn. rewrite Hst, Hct. auto. }
+    rewrite (J4 eq_refl) in *.
+    destruct (in_range cf o) eqn:Eo; cbn [negb].
+    + destruct (jloop_call_ok (mkJ true true insts) (CBroadcast o m) (fun k => k) Hinv eq_refl) with
+        (f := fun i run q => q_broadcast cf i run q o m) as (qs' & ev & E & Hinv' & Hab).
+      * intros i q _. cbn. rewrite Eo. reflexivity.
+      * intros; reflexivity.
+      * cbn [j_insts] in E. rewrite E. split; [exact Hinv'|]. split; [|reflexivity].
+        rewrite Hab. unfold jabs. cbn. rewrite Hst, Hct. reflexivity.
+    + destruct insts as [|q0 qs]; [congruence|].
+      rewrite (jloop_refused _ 0%nat true q0 qs RInvalidInput).
+      * split; [exact Hinv|]. unfold jabs; cbn. cbn in Hst, Hct. rewrite Hst, Hct. auto.
+      * unfold q_broadcast. cbn. rewrite Eo. reflexivity.
+      * discriminate.
+  - (* HandlePrivateMsg *)
+    unfold joint_private. cbn [j_jrun j_insts j_run]. destruct jrun; cbn [negb].
+    2:{ split; [exact Hinv|]. unfold jabs; cbn. rewrite Hst, Hct. auto. }
+    rewrite (J4 eq_refl) in *.
+    destruct (in_range cf o) eqn:Eo; cbn [negb].
+    + destruct (jloop_call_ok (mkJ true true insts) (CPrivate o m) (fun k => k) Hinv eq_refl) with
+        (f := fun i run q => q_private cf i run q o m) as (qs' & ev & E & Hinv' & Hab).
+      * intros i q _. cbn. rewrite Eo. reflexivity.
+      * intros; reflexivity.
+      * cbn [j_insts] in E. rewrite E. split; [exact Hinv'|]. split; [|reflexivity].
+        rewrite Hab. unfold jabs. cbn. rewrite Hst, Hct. reflexivity.
+    + destruct insts as [|q0 qs]; [congruence|].
+      rewrite (jloop_refused _ 0%nat true q0 qs RInvalidInput).
+      * split; [exact Hinv|]. unfold jabs; cbn. cbn in Hst, Hct. rewrite Hst, Hct. auto.
+      * unfold q_private. cbn. rewrite Eo. reflexivity.
+      * discriminate.
+  - (* ForceDisqualify *)
+    unfold joint_force. cbn [j_jrun j_insts j_run]. destruct jrun; cbn [negb].
+    2:{ split; [exact Hinv|]. unfold jabs; cbn. rewrite Hst, Hct. auto. }
+    rewrite (J4 eq_refl) in *.
+    destruct (in_range cf j) eqn:Ej; cbn [negb].
+    2:{ split; [exact Hinv|]. unfold jabs; cbn. rewrite Hst, Hct. auto. }
+    pose proof (in_range_lt j Ej) as Hlt.
+    destruct (nth_error_lt insts (Z.to_nat j)) as [q Eq]; [rewrite L; exact Hlt|]. rewrite Eq.
+    destruct (inst_call_ok (Z.to_nat j) q (CForce j) (mkA true (b2n (q_st q) + b2n (q_ct q))%nat) (Hi _ _ Eq))
+      as (q' & ev & E & W' & Hsum).
+    { cbn. rewrite Ej. reflexivity. }
+    cbn [qual_step qs_run qs_q] in E. apply qpack_inv in E. rewrite E. cbn [a_to] in Hsum.
+    destruct (Hs q (nth_error_In _ _ Eq)) as [C D].
+    assert (Hto : q_st q' = st /\ q_ct q' = ct).
+    { destruct W' as [(_ & _ & _ & Q3') _]. destruct (Hi _ _ Eq) as [(_ & _ & _ & Q3) _].
+      destruct (to_sum q' q Q3' Q3 Hsum). split; congruence. }
+    assert (Hsame' : same_to (set_nth insts (Z.to_nat j) q') st ct).
+    { intros q0 H0. apply in_set_nth in H0 as [->|H0]; [exact Hto|apply Hs; exact H0]. }
+    assert (Hne' : set_nth insts (Z.to_nat j) q' <> []).
+    { intro E0. apply (f_equal (@length _)) in E0. rewrite set_nth_length in E0. cbn in E0. rewrite L in E0. unfold n in E0. lia. }
+    destruct (same_to_hd _ _ _ Hsame' Hne') as [Hst' Hct'].
+    split; [|unfold jabs; cbn; rewrite Hst', Hct'; auto].
+    split; [cbn; rewrite set_nth_length; exact L|]. split; [|split; [eauto|auto]].
+    intros i q0 E0. cbn in E0. apply nth_set_nth in E0 as [[-> ->]|[Hk E0]]; [exact W'|apply Hi; exact E0].
 Qed.
 
 End Joint.
